@@ -149,3 +149,19 @@ def lib_convert(data):
     tree = OFXTree()
     tree.parse(io.BytesIO(data))
     return tree.convert()
+
+
+_REUSED_TREE = []
+
+
+def lib_convert_reused(data):
+    """parse + convert through ONE OFXTree object per process, as an application reading many files may do"""
+    import io
+
+    from ofxtools.Parser import OFXTree
+
+    if not _REUSED_TREE:
+        _REUSED_TREE.append(OFXTree())
+    tree = _REUSED_TREE[0]
+    tree.parse(io.BytesIO(data))
+    return tree.convert()
